@@ -1,0 +1,24 @@
+//go:build verif
+
+package signing_bbot
+
+// Contracts for the deductive checker in /verif (comment-only; compiled only under the verif tag).
+
+// Round 1 (randomness provenance, C07): the nonce share r, the mask phi and the witness of the commitment to R_i are
+// three draws from THIS cosigner's reader during this call; phi is drawn after (not equal by construction to) r;
+// R_i is [r]G for exactly that r and the broadcast commitment is to R_i under exactly that witness.
+//@ func (*Cosigner).Round1
+//@   property C07
+//@   uses reader
+//@   ghostvar sr V
+//@   ghostvar sphi V
+//@   ensures err == nil ==> drawn(box(c.state.r), sr) && streamOf(sr) == streamOf(old(shk(c.prng))) && rpos(old(shk(c.prng))) <= rpos(sr)
+//@   ensures err == nil ==> drawn(box(c.state.phi), sphi) && streamOf(sphi) == streamOf(old(shk(c.prng))) && rpos(sr) <= rpos(sphi) && rpos(sphi) <= rpos(shk(c.prng))
+//@   ensures err == nil ==> ownDraw(box(c.state.bigRWitness), old(shk(c.prng)), shk(c.prng))
+//@   ensures err == nil ==> c.state.bigR[c.shard.Share().ID()] == c.suite.Curve().ScalarBaseMul(c.state.r)
+//@   ensures err == nil ==> r1bOut.BigRCommitment == res(c.state.ck.CommitWithWitness(c.state.bigR[c.shard.Share().ID()].ToCompressed(), c.state.bigRWitness), 0)
+//@   ensures c.prng == old(c.prng)
+//@   ghostset before "c.state.r, err = c.suite.ScalarField().Random(c.prng)": sr = shk(c.prng)
+//@   ghostset before "c.state.phi, err = c.suite.ScalarField().Random(c.prng)": sphi = shk(c.prng)
+//@   loop range(c.ctx.OtherPartiesOrdered())
+//@     invariant c.prng == old(c.prng) && streamOf(shk(c.prng)) == streamOf(old(shk(c.prng))) && rpos(sphi) <= rpos(shk(c.prng))
